@@ -49,11 +49,16 @@ def delta_kernel(ctx, dim, kernel, grid, cell, case, dx_kind, n_markers=1, via="
     shift = dx / 2
     dxf = float(dx)
     n = n_markers
+    # many markers (size-gated code paths): the first and the last marker are symbolic, the others sit at fixed offsets
+    msel = list(range(n)) if n <= 2 else [0, n - 1]
     # marker position: component a (x first) in cell k_a = cell[a] with offset f_a
     f = []
     pos = ctx.zeros((dim, n))
     for m in range(n):
         for a in range(dim):
+            if m not in msel:
+                pos[a, m] = float(shift) + (cell[a] + 0.25 + 0.5 * ((m + a) % 2)) * dxf
+                continue
             if case[a] == "zero":
                 fa = 0.0
             elif case[a] == "interior":
@@ -69,9 +74,9 @@ def delta_kernel(ctx, dim, kernel, grid, cell, case, dx_kind, n_markers=1, via="
                 from symsopht import sym as S
 
                 # exact rational arithmetic (a float sum would round and move an on-centre marker off the centre)
-                pos[a, m] = S.lift(shift) + (S.lift(cell[a] + m) + S.lift(fa)) * S.lift(dx)
+                pos[a, m] = S.lift(shift) + (S.lift(cell[a] + (m if n <= 2 else 0)) + S.lift(fa)) * S.lift(dx)
             else:
-                pos[a, m] = float(shift) + (cell[a] + m + fa) * dxf
+                pos[a, m] = float(shift) + (cell[a] + (m if n <= 2 else 0) + fa) * dxf
     support = ctx.array("support_prior", (dim,) + (4,) * dim + (n,))
     weights = ctx.array("weights_prior", (4,) * dim + (n,))
     if ctx.sym:
@@ -118,10 +123,10 @@ def delta_kernel(ctx, dim, kernel, grid, cell, case, dx_kind, n_markers=1, via="
         for a in range(dim):
             for m in range(n):
                 support[a][..., m] = (nearest[a, m] + comp[a]) * dxf + float(shift) - pos[a, m]
-    for m in range(n):
+    for m in msel:
         for a in range(dim):
             if ctx.sym or case[a] == "interior":
-                ctx.eq(f"nearest_index[{a},{m}]", nearest[a, m], float(cell[a] + m))
+                ctx.eq(f"nearest_index[{a},{m}]", nearest[a, m], float(cell[a] + (m if n <= 2 else 0)))
             # (replay of an on-centre / slack case: floating-point floor may legitimately return the index below -
             #  the behaviour the source comment acknowledges - so the index itself is not asserted there)
     dist = support.copy()  # signed distances marker -> support cells
@@ -138,7 +143,7 @@ def delta_kernel(ctx, dim, kernel, grid, cell, case, dx_kind, n_markers=1, via="
     # equalities are exact except (a) the slack case and (b) spacings that are not exactly representable ("odd"): there the
     # grid coordinates / shift are floats that are not exact multiples of dx, so on-centre claims hold up to rounding only
     tol = 0.0 if ("slack" not in case and dx_kind == "unit") else (1e-9 if ctx.real_t == np.float64 else 2e-5)
-    for m in range(n):
+    for m in msel:
         w = weights[..., m]
         for idx in np.ndindex(*w.shape):
             ctx.le(f"weight_nonnegative[{','.join(map(str, idx))},{m}]", 0.0, w[idx])
@@ -183,13 +188,13 @@ def delta_kernel(ctx, dim, kernel, grid, cell, case, dx_kind, n_markers=1, via="
     out = ctx.array("lag_prior", (n,))
     nearest_int = nearest if not ctx.sym else np.array([[int(v) for v in row] for row in nearest], dtype=int)
     k_interp(out, field, weights, nearest_int)
-    for m in range(n):
+    for m in msel:
         (close(ctx, f"interpolated_constant[{m}]", out[m], cval, max(tol, 1e-7)) if tol else ctx.eq(f"interpolated_constant[{m}]", out[m], cval))
     if kernel == "peskin":
         for a in range(dim):
             out = ctx.array("lag_prior2", (n,))
             k_interp(out, ctx.const_array(sim.position_field[a]), weights, nearest_int)
-            for m in range(n):
+            for m in msel:
                 (close(ctx, f"interpolated_coordinate[{a},{m}]", out[m], pos[a, m], max(tol, 1e-7)) if tol else ctx.eq(f"interpolated_coordinate[{a},{m}]", out[m], pos[a, m]))
 
 
@@ -224,11 +229,30 @@ def main():
                 other = "cosine" if kernel == "peskin" else "peskin"
                 chk.add(delta_kernel, real_t=rt, dim=dim, kernel=kernel, grid=grid, cell=cells[0], case=["interior"] * dim, dx_kind="unit",
                         _earlier=[{"kernel": other}, {"dx_kind": "odd", "n_markers": 2, "cell": [2] * dim}, {"_real_t": "float32" if rt == "float64" else "float64", "kernel": other}])
+    # size-gated code paths: the generators are called for every marker count 1..1100 (+ powers of two up to 8192);
+    # each distinct code variant of the returned kernels is decided at the smallest marker count that selects it
+    from checks.common import size_variants
+
+    sizes = list(range(1, 1101)) + [2 ** k + d for k in range(11, 14) for d in (-1, 0, 1)]
+    variants = {}
+    for dim in (2, 3):
+        gs, gc, gp, gi = _modules(dim)
+        vs = set(size_variants(lambda n_: gs(dx=0.125, eul_grid_coord_shift=0.0625, num_lag_nodes=n_, interp_kernel_width=2), sizes))
+        vs |= set(size_variants(lambda n_: gi(dx=0.125, num_lag_nodes=n_, interp_kernel_width=2, n_components=1), sizes))
+        variants[dim] = sorted(vs)
+        for nv in variants[dim]:
+            if nv <= 2:
+                continue
+            grid = (7, 8) if dim == 2 else (7, 6, 8)
+            for kernel in ("peskin", "cosine"):
+                for via in ("class", "generators"):
+                    chk.add(delta_kernel, real_t="float64", dim=dim, kernel=kernel, grid=grid, cell=[3] * dim, case=["interior"] * dim, dx_kind="unit", n_markers=nv, via=via)
+    chk.extra["marker_counts_selecting_distinct_kernel_code"] = {str(k): v for k, v in variants.items()}
     if chk.quick:
         for dim in (2, 3):
             for kernel in ("peskin", "cosine"):
                 chk.add(delta_kernel, real_t="float32", dim=dim, kernel=kernel, grid=((7, 8) if dim == 2 else (7, 6, 8)), cell=[3] * dim, case=["zero"] + ["interior"] * (dim - 1), dx_kind="unit")
-    chk.bounds = ["kernels obtained from the communicator class (one 2-marker run through the bare generators); later-object instances: communicators with the other delta function / another spacing / marker count / precision are built and used first in the same process", "one marker (kernels are per-marker maps) + a 2-marker run for the tiling; marker offset f_a in [0,1) symbolic per axis (cases f=0 / 0<f<1), cell index enumerated",
+    chk.bounds = ["marker counts: the support and interpolation generators are called for every count in 1..1100 and 2^k-1..2^k+1 (k=11..13); every distinct code variant of the returned kernel is decided (first and last marker symbolic)", "kernels obtained from the communicator class (one 2-marker run through the bare generators); later-object instances: communicators with the other delta function / another spacing / marker count / precision are built and used first in the same process", "one marker (kernels are per-marker maps) + a 2-marker run for the tiling; marker offset f_a in [0,1) symbolic per axis (cases f=0 / 0<f<1), cell index enumerated",
                   "float-floor slack: marker within 2^-20 cell widths above a cell centre with the index one lower (tolerance 1e-9 on sums)", "grids (7,8) / (7,6,8) (dx = 1/8 exactly representable); dx = 1/n (and 0.37/n thorough); both kernels; 2D and 3D"]
     chk.outside = ["markers closer than two cells to the domain boundary (documented TODO of the source)", "rounding of the weight evaluation itself", "symbolic dx (dx only rescales distances; enumerated values)"]
     chk.assumptions = ["sqrt: s >= 0 and s^2 = radicand; cos/sin: |.| <= 1, exact values at multiples of pi/2, shift identities for arguments differing by multiples of pi/2",
